@@ -376,24 +376,60 @@ fn expand_calibrations(req: &Value) -> Value {
     json!({"source_body": source_body, "plain": plain, "mapped": mapped})
 }
 
+/// qubit parameter names out of `DefGateSequence { qubits: ["a", "b"], gates: [...] }` (the fields are crate-private)
+fn parse_debug_qubits(s: &str) -> Option<Vec<String>> {
+    let start = s.find("qubits: [")? + "qubits: [".len();
+    let end = start + s[start..].find(']')?;
+    Some(s[start..end].split(',').map(|x| x.trim().trim_matches('"').to_string()).filter(|x| !x.is_empty()).collect())
+}
+
 /// Both gate-sequence expansion entry points with the filter "name is in `selected`".
 fn expand_defgate_sequences(req: &Value) -> Value {
     let program = match Program::from_str(req["program"].as_str().unwrap()) {
         Ok(p) => p,
         Err(e) => return json!({"input_error": format!("{e:?}")}),
     };
+    let mut program = program;
+    // sequence definitions named in `empty` get an empty gate list (only constructible through the API)
+    if let Some(empty) = req.get("empty").and_then(|e| e.as_array()) {
+        use quil_rs::instruction::{DefGateSequence, GateDefinition, GateSpecification};
+        for name in empty {
+            let name = name.as_str().unwrap();
+            let def = match program.gate_definitions.get(name) {
+                Some(d) => d.clone(),
+                None => continue,
+            };
+            if let GateSpecification::Sequence(seq) = &def.specification {
+                let qubits: Vec<String> = match parse_debug_qubits(&format!("{seq:?}")) {
+                    Some(q) => q,
+                    None => return json!({"input_error": "cannot read sequence qubits"}),
+                };
+                let seq = DefGateSequence::try_new(qubits, vec![]).unwrap();
+                let d = GateDefinition::new(def.name.clone(), def.parameters.clone(), GateSpecification::Sequence(seq)).unwrap();
+                program.add_instruction(Instruction::GateDefinition(d));
+            }
+        }
+    }
     let selected: Vec<String> = req["selected"].as_array().unwrap().iter().map(|s| s.as_str().unwrap().to_string()).collect();
     let source_body: Vec<Value> = program.body_instructions().map(dbg).collect();
     let source_listing = listing(&program.to_instructions());
-    let mapped = match program.expand_defgate_sequences_with_source_map(|n| selected.iter().any(|s| s == n)) {
-        Ok((p, sm)) => json!({"ok": {"body": p.body_instructions().map(dbg).collect::<Vec<_>>(), "listing": listing(&p.to_instructions()), "source_map": dbg(&sm)}}),
+    let r_mapped = program.expand_defgate_sequences_with_source_map(|n| selected.iter().any(|s| s == n));
+    let r_plain = program.clone().expand_defgate_sequences(|n| selected.iter().any(|s| s == n));
+    let programs_equal = match (&r_mapped, &r_plain) {
+        (Ok((a, _)), Ok(b)) => json!(a == b),
+        _ => Value::Null,
+    };
+    let used = |p: &Program| Value::Array(p.get_used_qubits().iter().map(dbg).collect());
+    let mapped = match &r_mapped {
+        Ok((p, sm)) => json!({"ok": {"body": p.body_instructions().map(dbg).collect::<Vec<_>>(), "listing": listing(&p.to_instructions()), "source_map": dbg(sm),
+                                      "used_qubits": used(p)}}),
         Err(e) => json!({"err": format!("{e:?}")}),
     };
-    let plain = match program.clone().expand_defgate_sequences(|n| selected.iter().any(|s| s == n)) {
-        Ok(p) => json!({"ok": {"body": p.body_instructions().map(dbg).collect::<Vec<_>>(), "listing": listing(&p.to_instructions())}}),
+    let plain = match &r_plain {
+        Ok(p) => json!({"ok": {"body": p.body_instructions().map(dbg).collect::<Vec<_>>(), "listing": listing(&p.to_instructions()), "used_qubits": used(p)}}),
         Err(e) => json!({"err": format!("{e:?}")}),
     };
-    json!({"source_body": source_body, "source_listing": source_listing, "plain": plain, "mapped": mapped})
+    json!({"source_body": source_body, "source_listing": source_listing, "plain": plain, "mapped": mapped, "programs_equal": programs_equal})
 }
 
 /// type_check verdict for each program text: "Ok" or the error variant name.
